@@ -75,7 +75,8 @@ def run(ctx):
         "real-code round trip); "
         "hvcC/esds/dac3/dec3/wvtt/stpp payloads are written by C19's own transcriptions",
         "generator: coq/c15/C15Spec.v (nalu_sps, nalu_pps, sps_valid, pps_valid) and coq/c15/C15HevcSpec.v (hnalu_sps, hnalu_pps, "
-        "hsps_valid, hpps_valid) extracted into the C19 driver; the random choice of field values is a copy of ocaml/c15_driver.ml's",
+        "hsps_valid, hpps_valid), through the frozen copies coq/c19/C19Gen*.v, extracted into the C19 driver; the random choice "
+        "of field values is a copy of ocaml/c15_driver.ml's",
         "spec: coq/c19/C19Spec.v media-type table, language packing formula, op validity (written by hand)",
         "avc.ParseSPSNALUnit / hevc.ParseSPSNALUnit are abstract function arguments of the model",
     ]
